@@ -40,6 +40,7 @@ func init() {
 		"not":          func(in *Interp, fn *ssa.Function, a []Value) Value { return tNot(a[0].(Term)) },
 		"iteU32":       func(in *Interp, fn *ssa.Function, a []Value) Value { return tIte(a[0].(Term), a[1].(Term), a[2].(Term)) },
 		"iteU64":       func(in *Interp, fn *ssa.Function, a []Value) Value { return tIte(a[0].(Term), a[1].(Term), a[2].(Term)) },
+		"iteInt":       func(in *Interp, fn *ssa.Function, a []Value) Value { return tIte(a[0].(Term), a[1].(Term), a[2].(Term)) },
 		"iteStr":       func(in *Interp, fn *ssa.Function, a []Value) Value { return tIte(a[0].(Term), a[1].(Term), a[2].(Term)) },
 		"mapPutIf":     pMapPutIf,
 		"mapHas":       pMapHas,
@@ -72,6 +73,15 @@ func init() {
 		"mathSubSat":   pMathSubSat,
 		"mapAll":       pMapAll,
 		"mapAny":       pMapAny,
+		"mapEachP": func(in *Interp, fn *ssa.Function, a []Value) Value {
+			m, _ := a[0].(*MapObj)
+			if m != nil {
+				for _, s := range append([]*MapSlot{}, m.Slots...) {
+					in.call(a[1], []Value{s.K, copyVal(s.V), s.P})
+				}
+			}
+			return nil
+		},
 		"blobPartBytes": func(in *Interp, fn *ssa.Function, a []Value) Value {
 			if it, ok := a[0].(Iface); ok {
 				if s, ok := it.V.(Slice); ok {
